@@ -3,6 +3,7 @@ import json
 import re
 import random
 from ..suites import construct as S
+from ..suites import extras as X
 
 ID = "C01"
 SUITE = "construct"
@@ -20,10 +21,15 @@ RULE = ("classes from the type-directed declaration generator; kwargs streams va
         "keep_undefined, shallow_clone_with_overrides / from_other_class(instance|mapping) with an extra name, assignment of a new "
         "attribute, copy/deepcopy/clone/cast_to chain; the Undefined sentinel given for a required field; keyword / document / mapping "
         "names equal to the library's per-instance bookkeeping flags next to invalid values; a cross-field __validate__ hook stated on the base, "
-        "through constructor / clone / from_other_class / mapping / Deserializer / cast_to from a subclass with a looser hook / a copy chain); the declaration is checked on the returned instance in Python")
+        "through constructor / clone / from_other_class / mapping / Deserializer / cast_to from a subclass with a looser hook / a copy chain); the declaration is checked on the returned instance in Python; "
+        "plus (round 5) the same type-directed streams with the EXTENDED declaration generator (SizedString, IPV4, HostName, DateString, TimeString, JSONString at every "
+        "position a scalar can occupy; directed pools of valid / near-valid strings bare and inside 12 container positions), a TRANSPLANT stream (every collection among the "
+        "arguments is first stored in a laxly declared field of another instance and read back: the library's own typed wrappers as arguments), a DECIMAL stream (DecimalNumber "
+        "bare / Array items / Map values x every accepted input type and spelling), chains through the DESERIALIZER (JSON images and single-point corruptions under every flag "
+        "setting, serialize-then-deserialize) and an oracle-only NESTED-HOOK stream (a hooked class at 7 nested positions x 10 entry kinds)")
 ASSUMPTIONS = [
     "trusted entry points (from_trusted_data, trust_supplied_values, direct_trusted_mapping) are excluded by the statement",
-    "Deserializer as an entry point is covered by C05/C06's suites, not here",
+    "Deserializer as an entry point: the chain theorems cover every document; the correspondence drives it on classes of the serializable fragment (C05/C06 tie the Deser model elsewhere)",
     "instances passed as nested ClassReference arguments are themselves products of the real constructor",
 ]
 
@@ -257,7 +263,9 @@ def cases(rng, tier):
     dec = S.decimal_cases(random.Random("dec" + str(rng.getstate()[1][0])), tier, 40 if tier == "quick" else 500)
     # the Deserializer as an entry point of the chain (Sem/EntryD.lean)
     dz = S.deser_chain_cases(random.Random("dz" + str(rng.getstate()[1][0])), tier, 150 if tier == "quick" else 2500)
-    return base + ext + tp + dec + dz + nestedhook_cases()
+    # the element-wise oracle of C02's extras stream, in C01's direction: a leaf value the BARE field rejects must not be
+    # accepted at a nested position (oracle-only kinds: enums by value, date / datetime fields, bounded DecimalNumber ...)
+    return base + ext + tp + dec + dz + nestedhook_cases() + X.directed_ctor_cases()
 
 
 def search_cases(rng, tier):
@@ -267,7 +275,11 @@ def search_cases(rng, tier):
 
 
 def _i(case):
-    return case.get("suite") in ("inherit", "nestedhook")
+    return case.get("suite") in ("inherit", "nestedhook", "extras-ctor")
+
+
+def _xc(case):
+    return case.get("suite") == "extras-ctor"
 
 
 def _nh(case):
@@ -275,6 +287,8 @@ def _nh(case):
 
 
 def run_impl(case):
+    if _xc(case):
+        return X.run_ctor(case)
     if _nh(case):
         return run_nestedhook(case)
     return run_inherit(case) if _i(case) else S.run_impl(case)
@@ -285,6 +299,8 @@ def line(case, impl):
 
 
 def tags(case, impl, model):
+    if _xc(case):
+        return ["stream:extras-ctor", "extras:" + impl.get("out", "skipped")]
     if _nh(case):
         return ["stream:nestedhook", f"nestedhook:{case['entry']}:{impl.get('out', 'skipped')}"]
     if _i(case):
@@ -297,10 +313,12 @@ def nontrivial(case):
 
 
 def describe(case, impl, model):
-    return {"inherit": case, "result": impl} if _i(case) else S.describe(case, impl, model)
+    return {case.get("suite"): case, "result": impl} if _i(case) else S.describe(case, impl, model)
 
 
 def judge(case, impl, model):
+    if _xc(case):
+        return None, [f for f in X.judge_ctor(case, impl) if f[0].startswith("extras:element-not-validated")]
     if _nh(case):
         fails = []
         for pr in impl.get("problems", []):
